@@ -14,7 +14,7 @@ from typing import Dict, List, Set
 from . import q
 from .cfg import explore, canon_fact
 from .rules import event_facts, node_assigns, is_none
-from .x_guardflow import ClassEffects
+from .x_guardflow import ClassEffects, guard_facts, edge_facts
 
 IO = "tornado/iostream.py"
 FAMILY = [(IO, "BaseIOStream"), (IO, "IOStream"), (IO, "SSLIOStream"), (IO, "PipeIOStream")]
@@ -31,6 +31,7 @@ def read_end_mode(ck, rule: str) -> int:
             if not ends or fi.name == "__init__":
                 continue
             eid = {n.id for n in ends}
+            gfx = guard_facts(fi, eff)
 
             def tr(n, val):
                 pending, flag = val
@@ -49,8 +50,7 @@ def read_end_mode(ck, rule: str) -> int:
 
             def edge(n, kind, val):
                 pending, flag = val
-                if n.kind == "test" and kind in ("true", "false"):
-                    t, pol = canon_fact(n.ast, kind == "true")
+                for t, pol in edge_facts(n, kind, gfx):
                     if t == FLAG:
                         flag = False if pol is False else "?"
                 return (pending, flag)
